@@ -460,6 +460,9 @@ add("C02", "fixed", "escape:AttributeError@builtin/filters/array.py:uniq", "uniq
 add("C05", "fixed", "raw-special:text-of-a-missing-value:debug", "with autoescape on and DebugUndefined, {% call nosuchmacro %} wrote the undefined's text (\"'nosuchmacro' is undefined\") straight to the buffer, raw quotes included",
     [{"kind": "undefined-type", "undefined": "debug", "source": "{% call nosuchmacro %}", "data": V.enc({}), "async": False}], "8abc37c")
 
+add("C12", "fixed", "contains:str~bool", "contains on a string haystack turned the needle into text with Python's str(): 'it is true' contains true was false (it looked for 'True')",
+    [], "d9f5b4e")
+
 if __name__ == "__main__":
     # further entries are appended by tools/mkfindings.py from triaged replay files and kept in findings_extra.json
     extra_path = os.path.join(VERIF, "tools", "findings_extra.json")
